@@ -172,6 +172,23 @@ def classify(text):
         return ("ill", str(e))
 
 
+def must_refuse(text):
+    """True for ill-formed text whose defect is unambiguous: unbalanced / empty parentheses, an operator without
+    its left operand, two binary operators in a row.  Text in which a binary operator lacks its RIGHT operand
+    ('a|', '(a.)') is left out: the library documents nothing about it and reads the missing operand as the
+    empty language, so accepting it is not held against it."""
+    cls = classify(text)
+    if cls[0] != "ill":
+        return False
+    toks = tokenize(text)
+    for i, t in enumerate(toks):
+        if t in (("op", "|"), ("op", "+"), ("op", ".")):
+            nxt = toks[i + 1] if i + 1 < len(toks) else None
+            if nxt is None or nxt == ("op", ")"):
+                return False
+    return True
+
+
 def symbols_of(ast):
     if ast[0] == "sym":
         return {ast[1]}
